@@ -221,6 +221,8 @@ namespace Pistache::Tcp
 
     protected:
         void removePeer(const std::shared_ptr<Peer>& peer);
+        // tells the handler of the disconnection, then removes the peer
+        void handlePeerDisconnection(const std::shared_ptr<Peer>& peer);
         std::unordered_map<Fd, std::shared_ptr<Peer>> peers;
 
     private:
@@ -242,7 +244,6 @@ namespace Pistache::Tcp
         ssize_t sendRawBuffer(Fd fd, const char* buffer, size_t len, int flags);
         ssize_t sendFile(Fd fd, Fd file, off_t offset, size_t len);
 
-        void handlePeerDisconnection(const std::shared_ptr<Peer>& peer);
         void handleIncoming(const std::shared_ptr<Peer>& peer);
         void handleWriteQueue(bool flush = false);
         void handleTimerQueue();
